@@ -383,7 +383,7 @@ def pow_cases(draw, kind):
                 bases = st.one_of(bases, st.sampled_from([0.0, -1.0, 1.0]))
             x = draw(poly(D, P, s, bases))
         case['args'] = [x, A(e)]
-        case['sub'] = '%s:%s' % (mode, ek)
+        case['sub'] = '%s:%s' % ('same(steered)' if steered else mode, ek)
         case['form'] = 'operator'
         if steered:
             case['steered'] = steered
